@@ -84,8 +84,8 @@ Lemma fea_step_anon : forall b r g,
   exists r', fea_step (b, r) g = Some (fst (fnb_anon b (snd g)), r')
              /\ r_all r' = r_all r ++ [snd (fnb_anon b (snd g))].
 Proof.
-  intros b r [k specs] A. simpl in A. unfold fea_step. simpl fst. simpl snd.
-  destruct (fnb_anon b specs) as [b' id] eqn:E.
+  intros b r [k specs] A. cbn [fst snd] in *. unfold fea_step. cbn [fst snd].
+  destruct (fnb_anon b specs) as [b' id]. cbn [fst snd].
   destruct k; try discriminate; eexists; split; reflexivity.
 Qed.
 
@@ -115,7 +115,7 @@ Proof.
     { apply map_ext. intro n. rewrite E3. lia. }
     rewrite EM in J1, J2.
     split; [|split; [|split; [|split]]].
-    + rewrite J1, A1, E1, <- app_assoc. simpl. f_equal. f_equal. f_equal. lia.
+    + rewrite J1, A1, E1, <- app_assoc. f_equal. cbn [app]. f_equal. lia.
     + constructor; [|exact J2].
       replace (f_last b0 + 1 + N.of_nat 0) with (f_last b0 + 1) by lia.
       rewrite (J3 (f_last b0 + 1)) by (rewrite E3; lia).
@@ -174,16 +174,24 @@ Proof.
   - apply IH; assumption.
 Qed.
 
-Lemma max_name_id_ge : forall nm k s, In (k, s) nm -> fst k <= max_name_id nm.
+Lemma max_fold_ge : forall (nm : names) acc,
+  acc <= fold_left (fun m (e : nkey * str) => N.max m (fst (fst e))) nm acc.
 Proof.
-  unfold max_name_id. intros nm.
-  assert (G : forall acc, acc <= fold_left (fun m e => N.max m (fst (fst e))) nm acc
-                          /\ forall k s, In (k, s) nm -> fst k <= fold_left (fun m (e : nkey * str) => N.max m (fst (fst e))) nm acc).
-  { induction nm as [|e nm IH]; simpl; intro acc; [split; [lia|intros ? ? []]|].
-    destruct (IH (N.max acc (fst (fst e)))) as [H1 H2]. split; [lia|].
-    intros k s [H|H]; [subst; simpl in *; lia|apply H2 with s; exact H]. }
-  intros k s H. apply (proj2 (G 255)) with s. exact H.
+  induction nm as [|e nm IH]; intro acc; cbn [fold_left]; [lia|].
+  eapply N.le_trans; [|apply IH]. lia.
 Qed.
+
+Lemma max_fold_in : forall (nm : names) acc k s, In (k, s) nm ->
+  fst k <= fold_left (fun m (e : nkey * str) => N.max m (fst (fst e))) nm acc.
+Proof.
+  induction nm as [|e nm IH]; intros acc k s H; [contradiction|]. cbn [fold_left].
+  destruct H as [H|H].
+  - subst e. cbn [fst]. eapply N.le_trans; [|apply max_fold_ge]. lia.
+  - apply IH with s. exact H.
+Qed.
+
+Lemma max_name_id_ge : forall nm k s, In (k, s) nm -> fst k <= max_name_id nm.
+Proof. intros nm k s H. unfold max_name_id. apply max_fold_in with s. exact H. Qed.
 
 Definition fid (e : frec) : N := let '(_, _, _, i) := fst e in i.
 
